@@ -372,8 +372,11 @@ func (w *verifC08World) after() {
 // closeIt injects Close (or GracefulClose) after letting the other goroutines
 // run for 0..maxDelay scheduling segments (a fair hand-over, not a preemption),
 // so the close point moves through the concurrently running operation.
-func (w *verifC08World) closeIt() {
-	for n := verifChoice(verifC08MaxDelay + 4*verifTier() + 1); n > 0; n-- {
+func (w *verifC08World) closeIt() { w.closeItN(verifC08MaxDelay + 4*verifTier()) }
+
+// closeItN: Close or GracefulClose after 0..maxDelay fair hand-overs.
+func (w *verifC08World) closeItN(maxDelay int) {
+	for n := verifChoice(maxDelay + 1); n > 0; n-- {
 		runtime.Gosched()
 	}
 	if verifChoice(2) == 0 {
@@ -536,12 +539,12 @@ func verifC08CloseVsGather() {
 func verifC08CloseAfterRestart() {
 	w := verifC08New(true)
 	a := w.a
-	if verifTier() == 0 || verifChoice(2) == 1 {
+	{
 		// the cycle is busy in the network until some later moment
 		verifReach("slow-network")
 		gate := make(chan struct{})
 		w.net.gate = gate
-		k := verifChoice(3 + verifTier())
+		k := verifChoice(3)
 		go func() {
 			if k == 0 { // as late as it can: when nothing else can move any more
 				verifLetOthersRun()
@@ -554,12 +557,12 @@ func verifC08CloseAfterRestart() {
 	}
 	verifAssert(a.OnCandidate(func(Candidate) {}) == nil, "handler")
 	verifAssert(a.GatherCandidates() == nil, "GatherCandidates")
-	for n := verifChoice(2 + verifTier()); n > 0; n-- {
+	for n := verifChoice(2); n > 0; n-- {
 		runtime.Gosched()
 	}
 	err := a.Restart("c08newufrag", "c08newpasswordc08newpassword")
 	verifAssert(err == nil, "Restart-returns-nil")
-	w.closeIt()
+	w.closeItN(verifC08MaxDelay) // (same bound in both tiers: measured cost)
 	w.net.mu.Lock()
 	opened := len(w.net.socks)
 	w.net.mu.Unlock()
@@ -585,7 +588,7 @@ func verifC08CloseAfterRegather() {
 	w.net.gate, w.net.gateFirstOnly = gate, true
 	// the slow step ends after 0..1 hand-overs, or as late as it can: when
 	// nothing else in the system can move any more
-	k := verifChoice(2 + verifTier())
+	k := verifChoice(2)
 	go func() {
 		if k == 0 {
 			verifLetOthersRun()
@@ -597,13 +600,13 @@ func verifC08CloseAfterRegather() {
 	}()
 	verifAssert(a.OnCandidate(func(Candidate) {}) == nil, "handler")
 	verifAssert(a.GatherCandidates() == nil, "GatherCandidates")
-	for n := 1 + verifChoice(1+verifTier()); n > 0; n-- { // let the first cycle get into the network
+	for n := 1; n > 0; n-- { // let the first cycle get into the network
 		runtime.Gosched()
 	}
 	verifAssert(a.Restart("c08newufrag", "c08newpasswordc08newpassword") == nil, "Restart-returns-nil")
 	gerr := a.GatherCandidates()
 	verifAssert(gerr == nil, "GatherCandidates-after-Restart")
-	w.closeIt()
+	w.closeItN(verifC08MaxDelay) // (same bound in both tiers: measured cost)
 	w.net.mu.Lock()
 	opened := len(w.net.socks)
 	w.net.mu.Unlock()
@@ -639,7 +642,7 @@ func verifC09CloseVsGather() {
 		err := a.GatherCandidates()
 		verifAssert(err == nil || verifC08Closed(err), "GatherCandidates-returns-nil-or-closed")
 	}()
-	w.closeIt()
+	w.closeItN(verifC08MaxDelay) // (same bound in both tiers: measured cost)
 	w.net.mu.Lock()
 	opened := len(w.net.socks)
 	for _, c := range w.net.socks {
